@@ -52,6 +52,61 @@ Theorem C10_cancel_closes : forall n tr c k K,
 Proof. exact cancel_closes. Qed.
 Print Assumptions C10_cancel_closes.
 
+(* ---- an event reaches every listener that is live for the whole send, exactly once, in order ----
+   C10_delivered_when_live:
+   (1) the snapshot of a Send contains every listener whose Listen has returned and that is not
+       cancelled when the Send starts;
+   (2) when the Send is about to return true, every listener of its snapshot that is still not
+       cancelled has received the event (s, n) of this call.
+   C10_exactly_once_in_order: in every listener's log (newest first) the call numbers of one
+   sender strictly decrease towards the past - per-sender order, no event twice - and only
+   events of calls that were made appear. *)
+Theorem C10_delivered_when_live : forall n tr c s X,
+  run (init n) tr = Some c -> nth_error (ss c) s = Some X ->
+  (forall c' X', step c (LCall s) = Some c' -> nth_error (ss c') s = Some X' ->
+     forall k K, nth_error (ls c) k = Some K -> l_reg K = true -> l_cancel K = false ->
+       In k (snap_of (s_pc X'))) /\
+  (forall g sn, s_pc X = SLoop [] g sn ->
+     forall l, In l sn -> exists L, nth_error (ls c) l = Some L /\
+       (l_cancel L = true \/ In (s, s_calls X) (l_log L))).
+Proof. exact delivered_when_live. Qed.
+Print Assumptions C10_delivered_when_live.
+
+Theorem C10_exactly_once_in_order : forall n tr c l L,
+  run (init n) tr = Some c -> nth_error (ls c) l = Some L ->
+  sorted_log (l_log L) /\ NoDup (l_log L) /\
+  (forall s X m, nth_error (ss c) s = Some X -> In (s, m) (l_log L) -> (m <= s_calls X)%nat).
+Proof. exact exactly_once_in_order. Qed.
+Print Assumptions C10_exactly_once_in_order.
+
+(* two senders, two deliveries to one listener: the log is non-trivial *)
+Example C10_nonvacuous_log : exists c L,
+  run (init 2) [LListen; LRegister 0; LCall 0; LCall 1; LRLock 1; LRecvStart 0; LDeliver 1;
+                LRLock 0; LRecvStart 0; LDeliver 0; LFinish 0; LFinish 1]%nat = Some c /\
+  nth_error (ls c) 0 = Some L /\ l_log L = [(0, 1); (1, 1)]%nat.
+Proof. eexists. eexists. split; [reflexivity|]. split; reflexivity. Qed.
+
+(* ---- other senders and subscribers are not affected by a cancelled or abandoned one ----
+   a sender that cannot move is either waiting for the read lock of a CANCELLED listener whose
+   stop has asked for the lock (bounded by C10_cancel_closes: mu helper steps, all enabled), or
+   it is in the select of a listener that is NOT cancelled, with its own context alive and that
+   listener's consumer not receiving (the backpressure of a live subscription).  Nothing else
+   ever blocks a sender; in particular no cancelled listener holds one in its select. *)
+Theorem C10_others_unaffected : forall n tr c s X,
+  run (init n) tr = Some c -> nth_error (ss c) s = Some X -> blocked_sender c s ->
+  (exists l r g sn L, s_pc X = SLoop (l :: r) g sn /\ nth_error (ls c) l = Some L /\
+                      l_w L = WPending /\ l_cancel L = true)
+  \/ (exists l o r g sn L, s_pc X = SSel l o r g sn /\ nth_error (ls c) l = Some L /\
+                      l_cancel L = false /\ s_cancel X = false /\ (l_rcv L = false \/ o = false)).
+Proof. exact others_unaffected. Qed.
+Print Assumptions C10_others_unaffected.
+
+(* a sender blocked by the backpressure of a live listener exists (the clause is not vacuous) *)
+Example C10_nonvacuous_backpressure :
+  exists c X, run (init 1) [LListen; LRegister 0; LCall 0; LRLock 0]%nat = Some c /\
+    nth_error (ss c) 0 = Some X /\ blocked_sender c 0%nat.
+Proof. eexists. eexists. split; [reflexivity|]. split; [reflexivity|]. repeat split; reflexivity. Qed.
+
 (* ---- the goroutines behind a subscription all end once the listener channel is closed ----
    every schedule of the chain after the close is at most pmeasure long (so no fairness is
    needed at all: whatever runs, runs out) ... *)
